@@ -225,3 +225,149 @@ Theorem C07_kernel_coord2cell_refines_model_binary64 :
           [VArrF xy; VArrI (map (coord2cell F64 nrows ncols xll yll csz) (RefineGridGeom.pairs xy))]).
 Proof. exact @F64Laws.refine_coord2cell_raw_F64. Qed.
 Print Assumptions C07_kernel_coord2cell_refines_model_binary64.
+
+(* ================================================================== *)
+(* C07 ITSELF on the REGENERATED program, second part (MiniC translation of src/hydrodiy/gis/c_grid.c): footprint, outside, cell centre, row/column and *)
+(*    neighbour symmetry executed on the translated kernels (Proofs/KernelGrid2.v; the round trip is C07_kernel_coord2cell_cell2coord above). *)
+(* ================================================================== *)
+From Coq Require Import String Lia PrimFloat.
+From Hy Require Import Base.Num Base.MiniC Gen.KernelsAst Gen.Consts Base.Num Base.MiniC Gen.KernelsAst Model.Grid.
+From Hy Require Proofs.KernelGrid2.
+Import ListNotations.
+Open Scope string_scope.
+Open Scope list_scope.
+Open Scope Z_scope.
+
+(* every point of the footprint of a cell maps to that cell: the translated c_coord2cell over the reals, any grid of at most 2^63 rows / columns with positive cell size, any list of points *)
+Theorem C07_kernel_coord2cell_footprint :
+  forall (nrows ncols : Z) (xll yll csz : R) (rcs : list (Z * Z)) 
+         (pts : list (R * R)) (buf : list Z) (n : nat),
+       (0 < csz)%R ->
+       nrows <= RefineGridGeom.cmax64 ->
+       ncols <= RefineGridGeom.cmax64 ->
+       Forall (KernelGrid2.on_grid nrows ncols) rcs ->
+       Forall2 (KernelGrid2.in_footprint nrows xll yll csz) rcs pts ->
+       Datatypes.length buf = Datatypes.length pts ->
+       (Datatypes.length pts < n)%nat ->
+       KernelGrid2.run_coord2cell n nrows ncols xll yll csz pts buf =
+       Ok (RI 0, [VArrF (RefineGridGeom.flat_xy pts); VArrI (map (KernelGrid2.cellnum ncols) rcs)]).
+Proof. exact @KernelGrid2.kernel_coord2cell_footprint. Qed.
+Print Assumptions C07_kernel_coord2cell_footprint.
+
+(* every point outside the extent (all four sides, hence corners) maps to -1 *)
+Theorem C07_kernel_coord2cell_outside :
+  forall (nrows ncols : Z) (xll yll csz : R) (pts : list (R * R)) (buf : list Z) (n : nat),
+       (0 < csz)%R ->
+       nrows <= RefineGridGeom.cmax64 ->
+       ncols <= RefineGridGeom.cmax64 ->
+       Forall (KernelGrid2.outside_extent nrows ncols xll yll csz) pts ->
+       Datatypes.length buf = Datatypes.length pts ->
+       (Datatypes.length pts < n)%nat ->
+       KernelGrid2.run_coord2cell n nrows ncols xll yll csz pts buf =
+       Ok (RI 0, [VArrF (RefineGridGeom.flat_xy pts); VArrI (repeat (-1) (Datatypes.length pts))]).
+Proof. exact @KernelGrid2.kernel_coord2cell_outside. Qed.
+Print Assumptions C07_kernel_coord2cell_outside.
+
+(* cells are numbered row by row from the top-left corner and the translated c_cell2coord writes the centre of each cell *)
+Theorem C07_kernel_cell2coord_centre :
+  forall (nrows ncols : Z) (xll yll csz : R) (rcs : list (Z * Z)) (buf : list R) (n : nat),
+       Forall (KernelGrid2.on_grid nrows ncols) rcs ->
+       Datatypes.length buf = (2 * Datatypes.length rcs)%nat ->
+       (Datatypes.length rcs < n)%nat ->
+       KernelGrid2.run_cell2coord n nrows ncols xll yll csz (map (KernelGrid2.cellnum ncols) rcs)
+         buf =
+       Ok
+         (RI 0,
+          [VArrI (map (KernelGrid2.cellnum ncols) rcs);
+           VArrF (RefineGridGeom.flat_xy (map (KernelGrid2.centre nrows xll yll csz) rcs))]).
+Proof. exact @KernelGrid2.kernel_cell2coord_centre. Qed.
+Print Assumptions C07_kernel_cell2coord_centre.
+
+(* the translated c_cell2rowcol inverts row * ncols + col (any arithmetic instance) *)
+Theorem C07_kernel_cell2rowcol_rowcol :
+  forall (T : Type) (N : NumOps T) (X : NumLit T) (nrows ncols : Z) 
+         (rcs : list (Z * Z)) (buf : list Z) (n : nat),
+       Forall (KernelGrid2.on_grid nrows ncols) rcs ->
+       Datatypes.length buf = (2 * Datatypes.length rcs)%nat ->
+       (Datatypes.length rcs < n)%nat ->
+       KernelGrid2.run_cell2rowcol N X n nrows ncols (map (KernelGrid2.cellnum ncols) rcs) buf =
+       Ok
+         (RI 0,
+          [VArrI (map (KernelGrid2.cellnum ncols) rcs);
+           VArrI (flat_map (fun rc : Z * Z => [fst rc; snd rc]) rcs)]).
+Proof. exact @KernelGrid2.kernel_cell2rowcol_rowcol. Qed.
+Print Assumptions C07_kernel_cell2rowcol_rowcol.
+
+(* cell numbers outside the grid are flagged -1, -1 *)
+Theorem C07_kernel_cell2rowcol_invalid :
+  forall (T : Type) (N : NumOps T) (X : NumLit T) (nrows ncols : Z) 
+         (idx buf : list Z) (n : nat),
+       Forall (fun c : Z => c < 0 \/ nrows * ncols <= c) idx ->
+       Datatypes.length buf = (2 * Datatypes.length idx)%nat ->
+       (Datatypes.length idx < n)%nat ->
+       KernelGrid2.run_cell2rowcol N X n nrows ncols idx buf =
+       Ok (RI 0, [VArrI idx; VArrI (repeat (-1) (2 * Datatypes.length idx))]).
+Proof. exact @KernelGrid2.kernel_cell2rowcol_invalid. Qed.
+Print Assumptions C07_kernel_cell2rowcol_invalid.
+
+(* the neighbour relation computed by the translated c_neighbours is symmetric and the slots mirror: slot k of c holds d (not -1) => d is a valid cell different from c and slot 8-k of the kernel's answer for d holds c *)
+Theorem C07_kernel_neighbours_symmetric :
+  forall (T : Type) (N : NumOps T) (X : NumLit T) (nrows ncols c : Z) (buf : list Z) (n : nat),
+       0 < ncols ->
+       0 <= c < nrows * ncols ->
+       Datatypes.length buf = 9%nat ->
+       (3 < n)%nat ->
+       exists nbc : list Z,
+         KernelGrid2.run_neighbours N X n nrows ncols c buf = Ok (RI 0, [VArrI nbc]) /\
+         Datatypes.length nbc = 9%nat /\
+         (forall (k d : Z) (buf' : list Z),
+          0 <= k <= 8 ->
+          zn nbc k (-1) = d ->
+          d <> -1 ->
+          Datatypes.length buf' = 9%nat ->
+          0 <= d < nrows * ncols /\
+          d <> c /\
+          (exists nbd : list Z,
+             KernelGrid2.run_neighbours N X n nrows ncols d buf' = Ok (RI 0, [VArrI nbd]) /\
+             Datatypes.length nbd = 9%nat /\ zn nbd (8 - k) (-1) = c)).
+Proof. exact @KernelGrid2.kernel_neighbours_symmetric. Qed.
+Print Assumptions C07_kernel_neighbours_symmetric.
+
+(* the abbreviations run_coord2cell, run_cell2coord, run_cell2rowcol, run_neighbours, flat_xy, cellnum, on_grid, in_footprint, outside_extent, centre used above, unfolded *)
+Theorem C07_kernel_grid2_abbreviations :
+  (forall (n : nat) (nrows ncols : Z) (xll yll csz : R) (pts : list (R * R)) (buf : list Z),
+        KernelGrid2.run_coord2cell n nrows ncols xll yll csz pts buf =
+        exec_fun RR XRR program (S n) "c_coord2cell"
+          [AVI nrows; AVI ncols; AVF xll; AVF yll; AVF csz; AVI (zlen pts);
+           AVArrF (RefineGridGeom.flat_xy pts); AVArrI buf]) /\
+       (forall (n : nat) (nrows ncols : Z) (xll yll csz : R) (idx : list Z) (buf : list R),
+        KernelGrid2.run_cell2coord n nrows ncols xll yll csz idx buf =
+        exec_fun RR XRR program (S n) "c_cell2coord"
+          [AVI nrows; AVI ncols; AVF xll; AVF yll; AVF csz; AVI (zlen idx); AVArrI idx; AVArrF buf]) /\
+       (forall (T : Type) (N : NumOps T) (X : NumLit T) (n : nat) (nrows ncols : Z)
+          (idx buf : list Z),
+        KernelGrid2.run_cell2rowcol N X n nrows ncols idx buf =
+        exec_fun N X program (S n) "c_cell2rowcol"
+          [AVI nrows; AVI ncols; AVI (zlen idx); AVArrI idx; AVArrI buf]) /\
+       (forall (T : Type) (N : NumOps T) (X : NumLit T) (n : nat) (nrows ncols c : Z)
+          (buf : list Z),
+        KernelGrid2.run_neighbours N X n nrows ncols c buf =
+        exec_fun N X program (S n) "c_neighbours" [AVI nrows; AVI ncols; AVI c; AVArrI buf]) /\
+       (forall pts : list (R * R),
+        RefineGridGeom.flat_xy pts = flat_map (fun p : R * R => [fst p; snd p]) pts) /\
+       (forall ncols row col : Z, KernelGrid2.cellnum ncols (row, col) = row * ncols + col) /\
+       (forall nrows ncols row col : Z,
+        KernelGrid2.on_grid nrows ncols (row, col) <-> 0 <= col < ncols /\ 0 <= row < nrows) /\
+       (forall (nrows : Z) (xll yll csz : R) (row col : Z) (x y : R),
+        KernelGrid2.in_footprint nrows xll yll csz (row, col) (x, y) <->
+        (xll + csz * IZR col <= x < xll + csz * (IZR col + 1))%R /\
+        (yll + csz * IZR (nrows - 1 - row) <= y < yll + csz * (IZR (nrows - 1 - row) + 1))%R) /\
+       (forall (nrows ncols : Z) (xll yll csz x y : R),
+        KernelGrid2.outside_extent nrows ncols xll yll csz (x, y) <->
+        (x < xll)%R \/
+        (xll + csz * IZR ncols <= x)%R \/ (y < yll)%R \/ (yll + csz * IZR nrows <= y)%R) /\
+       (forall (nrows : Z) (xll yll csz : R) (row col : Z),
+        KernelGrid2.centre nrows xll yll csz (row, col) =
+        ((xll + csz * (IZR col + / 2))%R, (yll + csz * (IZR (nrows - 1 - row) + / 2))%R)).
+Proof. exact @KernelGrid2.kernel_grid2_defs. Qed.
+Print Assumptions C07_kernel_grid2_abbreviations.
